@@ -54,7 +54,7 @@ RECURSIVE LawSpecies(_)
 LawSpecies(rxs) == IF rxs = << >> THEN << >>
                    ELSE LET l == Head(rxs).law IN
                         (IF l.type = "massaction" THEN << >>
-                         ELSE IF l.type \in {"proportionalhillpositive", "proportionalhillnegative"} THEN <<l.s1, l.d>> ELSE <<l.s1>>)
+                         ELSE IF l.type \in {"proportionalhillpositive", "proportionalhillnegative", "affine"} THEN <<l.s1, l.d>> ELSE <<l.s1>>)
                         \o LawSpecies(Tail(rxs))
 ModelOrder(prog) == AddNew(AddNew(AddNew(prog.decl, LawSpecies(prog.rx)), MentionsOf(prog.rx)), [i \in 1..NS |-> i])
 IndexOf(order, s) == CHOOSE i \in 1..Len(order) : order[i] = s
